@@ -74,10 +74,11 @@ def run(rep, pdb, tier):
     conds = []
     for s in ps["body"].get("stmts", []):
         e = strip(s.get("e") or {})
-        if e.get("k") == "If":
+        while e.get("k") == "If":          # separate ifs, or one if / else-if chain (a match on the degree is canonicalised to that)
             for a in cond_atoms(ctx, e["cond"], True):
                 if a[0] == "cmp" and DEG in (a[2], a[3]):
                     conds.append((a[1], a[2], a[3]))
+            e = strip(e["else"]) if e.get("else") is not None else {}
     have = set()
     for op, a, b in conds:
         if op == "==" and a[0] == "num":
